@@ -181,21 +181,40 @@ Proof.
 Qed.
 
 (* the commitment over the term algebra determines the list of leaves *)
+Lemma commit_root_assoc : forall hf,
+  (forall a b c d, hf a b = hf c d -> a = c /\ b = d) ->
+  (forall a b c n, hf a b <> TAddLen c n) -> (forall a b z, hf a b <> TC z) ->
+  forall l1 l2, small (length l1) -> small (length l2) -> leaves_ok l1 -> leaves_ok l2 ->
+  commit_root hf l1 = commit_root hf l2 ->
+  forall k, length k = CH -> assoc term (indexed l1) k = assoc term (indexed l2) k.
+Proof.
+  intros hf I N C l1 l2 S1 S2 Z1 Z2 E. unfold commit_root in E. rewrite !spec_root_fast_eq in E.
+  exact (spec_root_assoc hf I N C CH _ _ (wf_indexed l1 S1 Z1) (wf_indexed l2 S2 Z2) E).
+Time Qed.
+
+Lemma nth_from_assoc : forall l1 l2, small (length l1) -> small (length l2) ->
+  (forall k, length k = CH -> assoc term (indexed l1) k = assoc term (indexed l2) k) ->
+  forall i, nth_error l1 i = nth_error l2 i.
+Proof.
+  intros l1 l2 S1 S2 A i.
+  destruct (Z_lt_dec (Z.of_nat i) (2 ^ 64)) as [B|B].
+  - rewrite <- (assoc_indexed l1 i S1 B), <- (assoc_indexed l2 i S2 B). apply A. apply ikey_length.
+  - unfold small in *.
+    assert (N1 : nth_error l1 i = None) by (apply nth_error_None; lia).
+    assert (N2 : nth_error l2 i = None) by (apply nth_error_None; lia).
+    congruence.
+Time Qed.
+
 Theorem commit_root_injective : forall hf,
   (forall a b c d, hf a b = hf c d -> a = c /\ b = d) ->
   (forall a b c n, hf a b <> TAddLen c n) -> (forall a b z, hf a b <> TC z) ->
   forall l1 l2, small (length l1) -> small (length l2) -> leaves_ok l1 -> leaves_ok l2 ->
   commit_root hf l1 = commit_root hf l2 -> l1 = l2.
 Proof.
-  intros hf I N C l1 l2 S1 S2 Z1 Z2 E. unfold commit_root in E. rewrite !spec_root_fast_eq in E.
-  assert (A := spec_root_assoc hf I N C CH _ _ (wf_indexed l1 S1 Z1) (wf_indexed l2 S2 Z2) E).
-  apply nth_error_ext'. intros i.
-  destruct (Z_lt_dec (Z.of_nat i) (2 ^ 64)) as [B|B].
-  - rewrite <- (assoc_indexed l1 i S1 B), <- (assoc_indexed l2 i S2 B). apply A. apply ikey_length.
-  - unfold small in *.
-    replace (nth_error l1 i) with (@None term) by (symmetry; apply nth_error_None; lia).
-    symmetry. apply nth_error_None. lia.
-Qed.
+  intros hf I N C l1 l2 S1 S2 Z1 Z2 E.
+  apply nth_error_ext'. apply nth_from_assoc; auto.
+  eapply commit_root_assoc; eauto.
+Time Qed.
 
 Lemma pos2_inj : forall a b c d, TPos2 a b = TPos2 c d -> a = c /\ b = d.
 Proof. intros a b c d H. injection H. auto. Qed.
